@@ -607,20 +607,39 @@ pub fn build_mgr(u: &Universe, re: &mut ReManager, p: &P) -> RegLan {
         }
         P::ConcatL(v) => {
             let ts: Vec<RegLan> = v.iter().map(|x| build_mgr(u, re, x)).collect();
-            re.concat_list(ts)
+            // the operands are handed over through iterators with exact and with inexact size hints
+            match (ts.len() + 0) % 3 {
+                0 => re.concat_list(ts),
+                1 => re.concat_list(ts.into_iter().filter(|_| true)),
+                _ => re.concat_list(ts.iter().flat_map(|t| std::iter::once(*t))),
+            }
         }
         P::UnionL(v) => {
             let ts: Vec<RegLan> = v.iter().map(|x| build_mgr(u, re, x)).collect();
-            re.union_list(ts)
+            // the operands are handed over through iterators with exact and with inexact size hints
+            match (ts.len() + 0) % 3 {
+                0 => re.union_list(ts),
+                1 => re.union_list(ts.into_iter().filter(|_| true)),
+                _ => re.union_list(ts.iter().flat_map(|t| std::iter::once(*t))),
+            }
         }
         P::InterL(v) => {
             let ts: Vec<RegLan> = v.iter().map(|x| build_mgr(u, re, x)).collect();
-            re.inter_list(ts)
+            // the operands are handed over through iterators with exact and with inexact size hints
+            match (ts.len() + 0) % 3 {
+                0 => re.inter_list(ts),
+                1 => re.inter_list(ts.into_iter().filter(|_| true)),
+                _ => re.inter_list(ts.iter().flat_map(|t| std::iter::once(*t))),
+            }
         }
         P::DiffL(a, v) => {
             let x = build_mgr(u, re, a);
             let ts: Vec<RegLan> = v.iter().map(|x| build_mgr(u, re, x)).collect();
-            re.diff_list(x, ts)
+            match (ts.len() + 0) % 3 {
+                0 => re.diff_list(x, ts),
+                1 => re.diff_list(x, ts.into_iter().filter(|_| true)),
+                _ => re.diff_list(x, ts.iter().flat_map(|t| std::iter::once(*t))),
+            }
         }
     }
 }
@@ -655,20 +674,39 @@ pub fn build_wrap(u: &Universe, p: &P) -> RegLan {
         P::Diff(a, b) => w::re_diff(build_wrap(u, a), build_wrap(u, b)),
         P::ConcatL(v) => {
             let ts: Vec<RegLan> = v.iter().map(|x| build_wrap(u, x)).collect();
-            w::re_concat_list(ts)
+            // the operands are handed over through iterators with exact and with inexact size hints
+            match (ts.len() + 1) % 3 {
+                0 => w::re_concat_list(ts),
+                1 => w::re_concat_list(ts.into_iter().filter(|_| true)),
+                _ => w::re_concat_list(ts.iter().flat_map(|t| std::iter::once(*t))),
+            }
         }
         P::UnionL(v) => {
             let ts: Vec<RegLan> = v.iter().map(|x| build_wrap(u, x)).collect();
-            w::re_union_list(ts)
+            // the operands are handed over through iterators with exact and with inexact size hints
+            match (ts.len() + 1) % 3 {
+                0 => w::re_union_list(ts),
+                1 => w::re_union_list(ts.into_iter().filter(|_| true)),
+                _ => w::re_union_list(ts.iter().flat_map(|t| std::iter::once(*t))),
+            }
         }
         P::InterL(v) => {
             let ts: Vec<RegLan> = v.iter().map(|x| build_wrap(u, x)).collect();
-            w::re_inter_list(ts)
+            // the operands are handed over through iterators with exact and with inexact size hints
+            match (ts.len() + 1) % 3 {
+                0 => w::re_inter_list(ts),
+                1 => w::re_inter_list(ts.into_iter().filter(|_| true)),
+                _ => w::re_inter_list(ts.iter().flat_map(|t| std::iter::once(*t))),
+            }
         }
         P::DiffL(a, v) => {
             let x = build_wrap(u, a);
             let ts: Vec<RegLan> = v.iter().map(|x| build_wrap(u, x)).collect();
-            w::re_diff_list(x, ts)
+            match (ts.len() + 1) % 3 {
+                0 => w::re_diff_list(x, ts),
+                1 => w::re_diff_list(x, ts.into_iter().filter(|_| true)),
+                _ => w::re_diff_list(x, ts.iter().flat_map(|t| std::iter::once(*t))),
+            }
         }
     }
 }
